@@ -69,6 +69,18 @@ func (e *Engine) translate(key string, fn *ssa.Function, dry bool, loopMods map[
 	}
 	fr.entry = entry
 	if !dry && g.con != nil {
+		for _, u := range g.con.Uses {
+			found := false
+			for i, ax := range e.Spec.Axioms {
+				if e.Spec.AxiomNames[i] == u {
+					g.assert(e.substStrLits(ax))
+					found = true
+				}
+			}
+			if !found {
+				g.rejectf("uses %s: no such axiom", u)
+			}
+		}
 		for _, r := range g.con.Requires {
 			sc := &specCtx{fr: fr, st: entry, old: entry}
 			t := sc.tr(r.Expr)
@@ -339,8 +351,10 @@ func (e *Engine) Prelude() string {
 	for _, gd := range e.Spec.Ghost {
 		tail.WriteString(e.substStrLits(gd) + "\n")
 	}
-	for _, ax := range e.Spec.Axioms {
-		tail.WriteString("(assert " + e.substStrLits(ax) + ")\n")
+	for i, ax := range e.Spec.Axioms {
+		if e.Spec.AxiomNames[i] == "" {
+			tail.WriteString("(assert " + e.substStrLits(ax) + ")\n")
+		}
 	}
 	return e.U.Prelude() + tail.String()
 }
